@@ -40,7 +40,7 @@ struct Hist<'a, T: Tbl> {
     nonconst: usize,
 }
 
-const OPS: [&str; 62] = [
+const OPS: [&str; 63] = [
     "zero", "one", "default", "nth_var", "parity", "majority", "threshold", "equals", "symmetric", "random",
     "from_blocks", "from_hex(print)", "from_hex(arbitrary)", "dyn-roundtrip", "int-roundtrip",
     "not-form", "and-form", "or-form", "xor-form",
@@ -52,6 +52,7 @@ const OPS: [&str; 62] = [
     "route:x^y^y", "route:de-morgan", "route:shannon", "route:clone", "route:double-not", "route:and-self",
     "route:or-zero", "route:xor-zero", "route:and-one", "route:swap-as-adjacent", "route:flip-twice-inplace",
     "route:cofactor-of-independent", "route:from_hex(upper)", "route:static-dyn-static", "route:min-max", "route:sort",
+    "tryfrom-other-size",
 ];
 
 impl<'a, T: Tbl> Hist<'a, T> {
@@ -203,6 +204,15 @@ impl<'a, T: Tbl> Hist<'a, T> {
         let hexa = a.t_to_hex_string();
         let hostile = self.hostile_string(&hexa);
         let kth = self.rng.below(std::cmp::min(size.saturating_mul(4), 300) + 1);
+        let other_n = {
+            let k = self.rng.below(13);
+            if k == n {
+                (n + 1) % 13
+            } else {
+                k
+            }
+        };
+        let other_blocks = vmon::gen::gen(*self.rng.pick(&[vmon::gen::Fam::Random, vmon::gen::Fam::Dense, vmon::gen::Fam::Const]), other_n, &mut self.rng);
         // every operation returns the values it produced; a panic on valid arguments belongs to the
         // property that owns the operation and is only counted here
         let r: Outcome<Vec<T>> = guard(|| -> Vec<T> {
@@ -233,6 +243,15 @@ impl<'a, T: Tbl> Hist<'a, T> {
                 "from_hex(print)" => T::t_from_hex_string(n, &hexa).into_iter().collect(),
                 "from_hex(arbitrary)" => T::t_from_hex_string(n, &hostile).into_iter().collect(),
                 "dyn-roundtrip" | "route:static-dyn-static" => T::try_from_dyn(a.to_dyn()).into_iter().collect(),
+                "tryfrom-other-size" => {
+                    // a conversion from a Lut of another size must fail; whatever it returns as Ok is a value
+                    // obtained through the public API and is held to the representation invariant
+                    if T::STATIC {
+                        T::try_from_dyn(Lut::from_blocks(other_n, &other_blocks)).into_iter().collect()
+                    } else {
+                        vec![]
+                    }
+                }
                 "int-roundtrip" => match int_route(n, a.t_blocks()) {
                     Some(b) => vec![T::t_from_blocks(n, &b)],
                     None => vec![],
@@ -500,12 +519,12 @@ fn main() {
         let (n, ty, c, _chunks) = shards[k];
         let mut rng = Rng::new(seed ^ ((n as u64) << 52) ^ ((c as u64) << 45) ^ if ty == "Lut" { 1 } else { 2 });
         let per_chunk = match (thorough, n) {
-            (false, 0..=6) => 120,
-            (false, 7..=9) => 40,
-            (false, _) => 12,
-            (true, 0..=6) => 6000,
-            (true, 7..=9) => 1500,
-            (true, _) => 300,
+            (false, 0..=6) => 300,
+            (false, 7..=9) => 100,
+            (false, _) => 30,
+            (true, 0..=6) => 24000,
+            (true, 7..=9) => 6000,
+            (true, _) => 1200,
         };
         for _ in 0..per_chunk {
             let steps = rng.range(40, 80);
@@ -545,6 +564,10 @@ fn main() {
             }
             if op == "default" && ty == "Lut" {
                 required.push(format!("op|{}|{}|n<6", op, ty));
+                continue;
+            }
+            if op == "tryfrom-other-size" {
+                // a correct library returns Err for every such conversion: nothing is produced, nothing to require
                 continue;
             }
             for reg in ["n<6", "n>=7"] {
